@@ -317,6 +317,32 @@ Definition ConnectionIDLimitError : Z := 9.
 Definition ProtocolViolation : Z := 10.
 Definition IdleTimeout : Z := 4096.   (* not a transport error code: qerr.ErrIdleTimeout, the connection is destroyed *)
 
+(** DATAGRAM frames (RFC 9221): the two encodings. max_datagram_frame_size counts the whole frame:
+    type byte, the length field if present (type 0x31), payload. wire.DatagramFrame.Length. *)
+Definition dgram_frame_size (haslen : bool) (payload : Z) : Z :=
+  1 + (if haslen then vlen payload else 0) + payload.
+(* a DATAGRAM frame given by its encoding and payload length is the event "frame of that total size" *)
+Definition EvDgramEnc (haslen : bool) (payload : Z) : ev := EvDgram (dgram_frame_size haslen payload).
+
+(** The sending side (Conn.SendDatagram, always type 0x31): wire.shrinkForLengthField and
+    DatagramFrame.MaxDataLen; the loop of the code runs at most 7 times, fuel 8. *)
+Fixpoint shrink_loop (fuel : nat) (space d : Z) : Z :=
+  match fuel with
+  | O => d
+  | S f => if (0 <? d) && (space <? vlen d - 1 + d) then shrink_loop f space (d - 1) else d
+  end.
+Definition shrink_for_length_field (space : Z) : Z := shrink_loop 8 space space.
+
+Definition dgram_max_data_len (haslen : bool) (maxsize : Z) : Z :=
+  let h := if haslen then 2 else 1 in
+  if maxsize <? h then 0
+  else if haslen then shrink_for_length_field (maxsize - h) else maxsize - h.
+
+(* SendDatagram: min(MaxDataLen(peer's max_datagram_frame_size), current MTU estimate) *)
+Definition send_datagram_max (peer_mdfs mtu : Z) : Z := Z.min (dgram_max_data_len true peer_mdfs) mtu.
+Definition send_datagram_ok (peer_mdfs mtu payload : Z) : bool :=
+  (0 <? peer_mdfs) && (payload <=? send_datagram_max peer_mdfs mtu).
+
 Definition fits_client (s : state) (k : kind) (n : Z) : bool := used (s k) + n <=? rw (s k).
 Definition fits_peer (s : state) (k : kind) (n : Z) : bool := used (s k) + n <=? cr (s k).
 
